@@ -1,6 +1,6 @@
 (* E2 obligations: the integer/boolean bookkeeping that tools/go2v translates from /repo on every
    run (gen/Scalar.v) is what the hand-written model computes. *)
-From PV Require Import Lib.Bytes Lib.GoInt gen.Tables Model.Exec.
+From PV Require Import Lib.Bytes Lib.GoInt gen.Tables Model.Filters Model.Exec.
 From PV Require Import Proofs.FilterProofs.
 From PV Require Import gen.Scalar.
 From Coq Require Import Lia ZArith.
@@ -68,3 +68,80 @@ Lemma e2_macro_guard : forall d, - two63 <= d < two63 - 1 ->
 Proof.
   intros d H. unfold go_macro_refuses. cbv zeta. rewrite wrap64_small by lia. reflexivity.
 Qed.
+
+(* ---- padding filters and get_digit ---- *)
+(* center: the model's decisions and blank counts are the code's *)
+Lemma e2_center : forall width slen,
+  let '(unchanged, refuses, _, _, sp, lft, rgt) := go_center width slen in
+  unchanged = (width <=? slen) /\
+  sp = wrap64 (width - slen) /\
+  refuses = (max_char_padding <? sp) /\
+  (0 <= sp <= max_char_padding -> lft = Z.quot sp 2 + Z.rem sp 2 /\ rgt = Z.quot sp 2).
+Proof.
+  intros width slen. unfold go_center. cbv zeta.
+  split; [reflexivity|]. split; [reflexivity|]. split; [reflexivity|].
+  intros [H0 H1]. unfold max_char_padding in H1.
+  assert (Hq : 0 <= Z.quot (wrap64 (width - slen)) 2 <= 5000) by (split; [apply Z.quot_pos; lia | apply Z.quot_le_upper_bound; lia]).
+  assert (Hr : 0 <= Z.rem (wrap64 (width - slen)) 2 < 2) by (apply Z.rem_bound_pos; lia).
+  rewrite !(wrap64_small (Z.quot _ _)) by (unfold two63; lia).
+  rewrite (wrap64_small (_ + _)) by (unfold two63; lia). split; reflexivity.
+Qed.
+
+(* ljust: blanks appended, and when it refuses *)
+Lemma e2_ljust : forall width slen,
+  go_ljust width slen =
+  (let t0 := wrap64 (width - slen) in let times := if (t0 <? 0) then 0 else t0 in ((max_char_padding <? times), times)).
+Proof. intros. unfold go_ljust. cbv zeta. reflexivity. Qed.
+
+(* rjust: the field width, and when it refuses *)
+Lemma e2_rjust : forall width,
+  go_rjust width = (let w := if (width <? 0) then 0 else width in ((max_char_padding <? w), w)).
+Proof. intros. unfold go_rjust. cbv zeta. reflexivity. Qed.
+
+(* get_digit: when the input is handed back unchanged *)
+Lemma e2_get_digit : forall i l,
+  go_get_digit i l = (((i <=? 0) || (l <? i)), i, l).
+Proof. intros. reflexivity. Qed.
+
+Lemma wrap64_range : forall z, - two63 <= wrap64 z < two63.
+Proof. intro z. unfold wrap64, two63, two64. pose proof (Z.mod_pos_bound (z + 9223372036854775808) 18446744073709551616). lia. Qed.
+
+Lemma e2_center_halves : forall a, - two63 <= a < two63 ->
+  wrap64 (wrap64 (Z.quot a 2) + Z.rem a 2) = Z.quot a 2 + Z.rem a 2 /\ wrap64 (Z.quot a 2) = Z.quot a 2.
+Proof.
+  intros a Ha. unfold two63 in Ha.
+  pose proof (Z.quot_rem' a 2) as E.
+  assert (Hr : -2 < Z.rem a 2 < 2).
+  { pose proof (Z.rem_bound_abs a 2 ltac:(lia)) as Hb. lia. }
+  assert (Hq : -4611686018427387905 < Z.quot a 2 < 4611686018427387905) by lia.
+  rewrite (wrap64_small (Z.quot a 2)) by (unfold two63; lia).
+  rewrite wrap64_small by (unfold two63; lia). split; reflexivity.
+Qed.
+
+(* the model's filter bodies, written with the translated arithmetic *)
+Lemma e2_center_body : forall x p w, int_of p = Ok w ->
+  center_body x p =
+  (let '(unchanged, refuses, _, _, _, lft, rgt) := go_center w (val_len (vv x)) in
+   if unchanged then Ok x
+   else if refuses then ferr
+   else bind (str_of x) (fun s => okv (VStr (spaces lft ++ s ++ spaces rgt)))).
+Proof.
+  intros x p w Hp. unfold center_body, go_center, max_char_padding. rewrite Hp. cbn [bind]. cbv zeta.
+  destruct (w <=? val_len (vv x)); [reflexivity|].
+  destruct (10000 <? wrap64 (w - val_len (vv x))); [reflexivity|].
+  destruct (e2_center_halves (wrap64 (w - val_len (vv x))) (wrap64_range _)) as [E1 E2].
+  rewrite E1, E2. reflexivity.
+Qed.
+
+Lemma e2_ljust_body : forall x p w, int_of p = Ok w ->
+  ljust_body x p =
+  (let '(refuses, times) := go_ljust w (val_len (vv x)) in
+   if refuses then ferr else bind (str_of x) (fun s => okv (VStr (s ++ spaces times)))).
+Proof. intros x p w Hp. unfold ljust_body, go_ljust, max_char_padding. rewrite Hp. cbn [bind]. cbv zeta. reflexivity. Qed.
+
+Lemma e2_rjust_body : forall x p w, int_of p = Ok w ->
+  rjust_body x p =
+  (let '(refuses, width) := go_rjust w in
+   if refuses then ferr
+   else bind (str_of x) (fun s => okv (VStr (spaces (width - Z.of_nat (length (runes s))) ++ s)))).
+Proof. intros x p w Hp. unfold rjust_body, go_rjust, max_char_padding. rewrite Hp. cbn [bind]. cbv zeta. reflexivity. Qed.
